@@ -140,7 +140,7 @@ func (sc *srvScen) tokenGrid(other *srvScen) {
 // ---------------- C11: announce / get_peers ----------------
 
 func runC11(r *Run) {
-	r.Result.Rule = "scenario = server with the bundled in-memory peer store (wrapped by a recorder); announces with ports 1..65535, implied_port on/off, missing port, IPv4/IPv6/v4-mapped sources (same IP re-announcing, both representations of one IPv4), several infohashes, interleaved with get_peers; bursts of first announces for a brand-new infohash delivered back to back (stores overlap) and concurrent first stores on the bundled peer store directly; carrying every want combination from either family; non-trivial = get_peers reply that carries values"
+	r.Result.Rule = "scenario = server with the bundled in-memory peer store (wrapped by a recorder); announces with ports 1..65535, implied_port on/off, missing port, IPv4/IPv6/v4-mapped sources (same IP re-announcing, both representations of one IPv4), several infohashes, a popular infohash with 60..120 announcers, interleaved with get_peers; bursts of first announces for a brand-new infohash delivered back to back (stores overlap) and concurrent first stores on the bundled peer store directly; carrying every want combination from either family; non-trivial = get_peers reply that carries values"
 	n := r.n(40, 800)
 	for i := 0; i < n; i++ {
 		sc := r.newSrvScen(srvOpts{noSecurity: true, peerStore: true, callback: i%3 == 0, defaultWant: i%2 == 1})
@@ -476,7 +476,7 @@ func parseHexIP(h string) (net.IP, bool) {
 // ---------------- C19: blocklist and passive ----------------
 
 func runC19(r *Run) {
-	r.Result.Rule = "scenario = blocklist (single addresses, ranges, IPv4 and IPv6, installed at construction or later) x passive on/off x every query method from blocked and unblocked sources, plus outbound paths (ping/AddNode-triggered ping, questionable ping, bootstrap and announce traversals seeded with blocked and unblocked addresses); destinations and ro flag of every written datagram are checked; non-trivial = scenario that delivers traffic from or towards a blocked address"
+	r.Result.Rule = "scenario = blocklist (single addresses, ranges, IPv4 and IPv6, installed at construction or later) x passive on/off x every query method from blocked and unblocked sources (also with undecodable sender IDs, to passive nodes and from blocked sources), plus outbound paths (ping/AddNode-triggered ping, questionable ping, bootstrap and announce traversals seeded with blocked and unblocked addresses); destinations and ro flag of every written datagram are checked; non-trivial = scenario that delivers traffic from or towards a blocked address"
 	n := r.n(40, 800)
 	for i := 0; i < n; i++ {
 		bl := r.randBlocklist()
